@@ -15,7 +15,7 @@ structure RelOK (env : Env) (R : St → St → Prop) : Prop where
   trans : ∀ {a b c}, R a b → R b c → R a c
   put : ∀ s x, R s (s.put x)
   /-- logging an event; `seqDrop` is only ever logged by the unrepaired shared-DO `match` -/
-  ev : ∀ s e, (e = Ev.ghost .seqDrop → env.tbl.quirks.seqRestores = false) → R s (s.ev e)
+  ev : ∀ s g, (g = Ghost.seqDrop → env.tbl.quirks.seqRestores = false) → R s (s.ev (.ghost g))
   leaf : ∀ c pc s, R s (leafNew env c pc s).2.2
   comment : ∀ s, R s (commentNew env s).2
   directive : ∀ s, R s (directiveNew env s).2
@@ -70,7 +70,7 @@ theorem restoreRc_rel (ts : List Tree) (s : St) : R s (restoreRc ts s) := by
 theorem ghostIf_rel (b : Bool) (g : Ghost) (s : St)
     (hg : g = .seqDrop → env.tbl.quirks.seqRestores = false) : R s (ghostIf b g s) := by
   unfold ghostIf; split
-  · exact h.ev _ _ (fun e => hg (by injection e))
+  · exact h.ev _ _ hg
   · exact h.refl _
 
 theorem leafFresh_rel (c : Cls) (s : St) : R s (leafFresh env c s).2 := by
@@ -443,7 +443,7 @@ theorem unitStep_rel {f : F} (hf : FRel R f) (fuel : Nat) (unit main0 : Cls) (rc
   · rename_i e s1 heq
     rw [heq] at h1
     split
-    · have h2 := h.trans h1 (h.trans (h.ev s1 (.ghost .fallback) (fun e => by cases e))
+    · have h2 := h.trans h1 (h.trans (h.ev s1 .fallback (fun e => by cases e))
         (blockMatch_rel h hf fuel (fallbackCfg main0) _))
       split
       · rename_i c0 s2 heq2; rw [heq2] at h2; exact h2
